@@ -103,7 +103,7 @@ def via_solver(ctx, st, ws, backend, bname, build, desc, mode, keyidx):
         else:
             ks = [keys_pool[i] for i in keyidx if i < len(keys_pool)]
             if ks:
-                s.add_answer_key(ks)
+                ctx.count("c03.key_form.%d" % progs.register_keys(s, ks, len(repr(desc)) + len(ks)))
             ws.expect_key_names = {mwire.name_of(v) for v in ks}
             try:
                 s.solve(backend=backend)
